@@ -71,19 +71,15 @@ def doy_on_or_after(ts, day, month):
 
 
 def dowdom_candidates(ts, w, n):
-    """weekday + day of month: the nearest date not before today with that weekday and that
-    day of month. When today itself matches, the convention is open (a single weekday or day of
-    month equal to today's rolls on, a day+month stays): both today and the next match are
-    accepted."""
+    """weekday + day of month: the nearest date NOT BEFORE today with that weekday and that day
+    of month - today itself when today matches ("never before the reference date and ... the
+    nearest one that matches"), whatever the time of day."""
     d = ts.date()
-    found = []
     for i in range(0, 366 * 12):
         c = d + timedelta(days=i)
         if c.day == n and c.weekday() == w:
-            found.append(_d(c))
-            if i > 0 or len(found) == 2:
-                break
-    return found
+            return [_d(c)]
+    return []
 
 
 def pod_day(ts, pod, start_hour):
